@@ -246,3 +246,45 @@ Example C01_example_session_delivers :
      [OEvent (HRequest (7, 100) 10 0)]).
 Proof. split; [exact h_session_has_session | exact request_step]. Qed.
 Print Assumptions C01_example_session_delivers.
+
+(* Routing-table level: whatever sequence of table operations runs, every stored record (pending slot
+   included) sits under the id it belongs to, as long as every operation offers records under their own
+   ids (Proofs/KBucketGap.v; the `kb --focus rec` monitors state the same of the real table). *)
+Require Discv5V.Model.KBucket Discv5V.Proofs.KBMembers Discv5V.Proofs.KBucketGap.
+Module C01Table.
+Import Discv5V.Model.KBucket.
+Theorem C01_table_records_sit_under_their_own_ids : forall (owner : N -> N) fixed c loc ops,
+  Forall (fun o => forall k v, In (k, v) (Discv5V.Proofs.KBucketGap.offered (fst o)) -> owner (vid v) = k) ops ->
+  forall k v, In (k, v) (Discv5V.Proofs.KBMembers.tmem (fst (run fixed c (new_table loc) ops))) -> owner (vid v) = k.
+Proof. exact Discv5V.Proofs.KBucketGap.values_keyed_reachable. Qed.
+Print Assumptions C01_table_records_sit_under_their_own_ids.
+End C01Table.
+
+(* The record the service vouches for when the handler asks who a packet's sender is (Service::find_enr,
+   Model/Admission.v find_enr, compared with the real service on generated who-are-you queries): its id is
+   the id asked for, the routing table's record takes precedence over whatever a running lookup was told,
+   and an id known to neither gets no record. *)
+Require Discv5V.Model.KBucket Discv5V.Model.Nodes Discv5V.Model.Admission Discv5V.Proofs.Admission.
+Module C01FindEnr.
+Import Discv5V.Model.KBucket Discv5V.Model.Nodes Discv5V.Model.Admission.
+Theorem C01_service_vouches_only_with_a_record_of_the_id_asked_for :
+  forall (rec_of : N -> enr) (tf : enr -> bool) (mode : ip_mode) (c : config) (t : table)
+         (u : list enr) (id now : N) (e : enr),
+  Discv5V.Proofs.Admission.Adm rec_of tf mode t ->
+  snd (find_enr rec_of c t u id now) = Some e -> e_id e = id.
+Proof. exact Discv5V.Proofs.Admission.find_enr_id. Qed.
+Print Assumptions C01_service_vouches_only_with_a_record_of_the_id_asked_for.
+Theorem C01_stored_record_takes_precedence_over_lookup_hearsay :
+  forall (rec_of : N -> enr) (c : config) (t : table) (u u' : list enr) (id now : N) (e : enr),
+  present_rec rec_of (fst (t_entry c t id ALook now)) id = Some e ->
+  snd (find_enr rec_of c t u id now) = snd (find_enr rec_of c t u' id now).
+Proof. exact Discv5V.Proofs.Admission.find_enr_table_first_any_queries. Qed.
+Print Assumptions C01_stored_record_takes_precedence_over_lookup_hearsay.
+Theorem C01_no_record_for_an_unknown_id :
+  forall (rec_of : N -> enr) (c : config) (t : table) (u : list enr) (id now : N),
+  present_rec rec_of (fst (t_entry c t id ALook now)) id = None ->
+  (forall e : enr, In e u -> e_id e <> id) ->
+  snd (find_enr rec_of c t u id now) = None.
+Proof. exact Discv5V.Proofs.Admission.find_enr_unknown. Qed.
+Print Assumptions C01_no_record_for_an_unknown_id.
+End C01FindEnr.
